@@ -1181,6 +1181,7 @@ func engineReflect(cfg config, o *out) {
 		o.raw("SCHEMA\t" + si.id + "\t=\t" + si.sexp())
 		r := newRng(cfg.seed, "reflect/"+si.id)
 		g := &rgen{r: r, vg: &vgen{r: r, si: si}}
+		ra := newRng(cfg.seed, "reflect-alias/"+si.id)
 		for _, mi := range si.roots() {
 			// exhaustive part on the small all-shapes messages
 			if si.id == "vm" || (si.id == "testpb" && mi.md.Name() == "A") {
@@ -1217,6 +1218,12 @@ func engineReflect(cfg config, o *out) {
 					}
 				}
 				g.random(sv, 25)
+			}
+			// retained handles and aliasing (reflecteng_alias.go): implementation-side only, own random stream
+			ga := &rgen{r: ra, vg: &vgen{r: ra, si: si}}
+			ga.aliasScripts(o, si, mi, si.id == "vm" || (si.id == "testpb" && mi.md.Name() == "A"))
+			for i := 0; i < n/5; i++ {
+				ga.aliasRandom(o, si, mi, 30)
 			}
 		}
 	}
